@@ -114,6 +114,20 @@ class Exchange(object):
     def text(self):
         return self.body.decode('utf8', 'replace')
 
+    def length_problem(self):
+        """a Content-Length that does not announce the bytes that are sent (a client that honours it gets a body cut short,
+        or waits for bytes that never come); None when consistent, absent, or no body is due (HEAD, 204, 304, 1xx)"""
+        cl = self.header('Content-Length')
+        if cl is None or self.environ.get('REQUEST_METHOD') == 'HEAD' or self.status in (204, 304) or (self.status or 200) < 200:
+            return None
+        try:
+            n = int(cl)
+        except ValueError:
+            return 'Content-Length %r is not a number' % cl
+        if n != len(self.body):
+            return 'Content-Length announces %d bytes, %d were sent' % (n, len(self.body))
+        return None
+
     def brief(self):
         d = {'method': self.environ.get('REQUEST_METHOD'), 'path': self.environ.get('PATH_INFO'),
              'query': self.environ.get('QUERY_STRING'), 'status': self.status,
